@@ -97,6 +97,11 @@ def check(ctx: Ctx) -> str:
     ctx.check(len(sets) == 1 and any(g == "frame.rootlevel" and pol for g, pol in astq.guard_texts(ve.node, sets[0])), "known-extends:rootlevel", "compiler:CodeGenerator.visit_Extends", "known extends only at root level",
               "has_known_extends may only be set for an extends at root level (not inside an if)", ve.loc())
     template_passthrough_rule(ctx, "R5")
+    # a scoped block receives the enclosing loop's variables - `loop` exists only if visit_For
+    # recognises the block anywhere below the loop (rule owned by C07)
+    from .c07 import undeclared_visitor_rule
+
+    undeclared_visitor_rule(ctx, "R6")
     return __doc__ or ""
 
 
